@@ -2315,6 +2315,24 @@ class GAM(Core, MetaTermMixin):
         if n_draws < 1:
             raise ValueError('n_draws must be >= 1;' ' got {}'.format(n_draws))
 
+        y = check_y(y, self.link, self.distribution, verbose=self.verbose)
+        X = check_X(
+            X,
+            n_feats=self.statistics_['m_features'],
+            edge_knots=self.edge_knots_,
+            dtypes=self.dtype,
+            features=self.feature,
+            verbose=self.verbose,
+        )
+        check_X_y(X, y)
+
+        if weights is not None:
+            weights = np.array(weights).astype('f').ravel()
+            weights = check_array(
+                weights, name='sample weights', ndim=1, verbose=self.verbose
+            )
+            check_lengths(y, weights)
+
         coef_bootstraps, cov_bootstraps = self._bootstrap_samples_of_smoothing(
             X, y, weights=weights, n_bootstraps=n_bootstraps, objective=objective
         )
